@@ -298,7 +298,10 @@ class Seam:
                 rule["done"] = True
             else:
                 rule["seen"] = 0
-            self.fired[rule.get("name", rule["exc"])] += 1
+            self.fired[rule.get("name", rule.get("exc", "action"))] += 1
+            if rule.get("action"):
+                rule["action"]()  # an external actor does something at this instant; no exception
+                return None
             return make_exc(rule["exc"], r2 or r1 or "")
         return None
 
@@ -411,6 +414,8 @@ class Seam:
                 return REAL["shutil.copyfile"](src, dst, follow_symlinks=follow_symlinks)
             if S.sched is not None:
                 S.read_point("copy_read", src)
+            if S.faults:
+                S.point("copy_open_src", src, dst)
             with real_open(src, "rb") as f:
                 data = f.read()
             S.point("copy_create", dst, None)
